@@ -343,7 +343,7 @@ func runC08(r *ev.Run) {
 	r.Set("race_pass", raceInfo)
 	r.Set("distinct_outcomes", map[string]int64{"hard_twins_that_aborted": counters[2].Load()})
 	r.Set("exhaustive", false)
-	r.Set("rule", "histories: engine-vs-engine games (tables carried over) where every search runs on two identically driven instances (results, reported lines with the time field masked, table/history/generation digests must be equal) and is replayed on a third with a hard budget equal to the nodes used (same result, same state left behind, budget never exceeded); every iteration boundary of a depth-6 search from the root corpus: soft limit firing after iteration j vs hard budget n_j, plus a follow-up search on both; schedules: all games replayed on free-running goroutines must reproduce the sequential transcripts (complementary: the same body under the race detector); two instances interleaved at every poll of the instrumented search within the preemption bound must each reproduce their solo run")
+	r.Set("rule", "histories: engine-vs-engine games (tables carried over) where every search runs on two identically driven instances (results, reported lines with the time field masked, table/history/generation digests must be equal) and is replayed on a third with a hard budget equal to the nodes used (same result, same state left behind, budget never exceeded); every iteration boundary of a depth-6 search from the root corpus: soft limit firing after iteration j vs hard budget n_j, plus a follow-up search on both; half of the games call the search without WithCounters (as the UCI driver does); a pondering search with a hard budget stopped from outside never counts more than the budget; schedules: all games replayed on free-running goroutines must reproduce the sequential transcripts (complementary: the same body under the race detector); two instances interleaved at every poll of the instrumented search within the preemption bound must each reproduce their solo run")
 	r.Assume("state left behind observed through the verif digests (table bytes, history tables, generation) and behaviourally by the following searches of the same game")
 }
 
